@@ -693,10 +693,25 @@ fn run_para(fonts: &Fonts, c: &ParaCase) -> Value {
             hyphenator,
         };
         lb.break_line(&fonts.repo, &mut v, &mut list);
-        (list, v, logger.breakpoints(), logger.attempts)
+        // the same paragraph once more, appended to the vertical list the first run made: a paragraph is the same
+        // paragraph wherever it lands (club and widow penalties count *its* lines); only the interline glue in front
+        // of its first line is new
+        let mut v2 = v.clone();
+        let mut list2 = c.orig.clone();
+        let lb2 = kp::LineBreaker {
+            params: &c.params,
+            line_widths: &widths,
+            line_indents: &indents,
+            debug_logger: None,
+            hyphenator,
+        };
+        lb2.break_line(&fonts.repo, &mut v2, &mut list2);
+        let again: Vec<ds::Vertical> = v2[v.len().min(v2.len())..].to_vec();
+        (list, v, logger.breakpoints(), logger.attempts, again)
     });
     match r {
-        Ok((list, v, bps, attempts)) => {
+        Ok((list, v, bps, attempts, again)) => {
+            ev["v_again"] = json!(again.iter().map(vnode).collect::<Vec<_>>());
             let Some(bps) = bps else {
                 eprintln!("c12: the debug::Logger callbacks did not yield the chosen breakpoints");
                 std::process::exit(2);
